@@ -680,7 +680,9 @@ def make_tasks(cfgname, groups, tier, rnd, filedir, fraction):
         if agg:
             # inside an aggregating function: a sample of the catalogue
             cat = BINOPS if form == 'op' else FUNCS[len(kinds)]
-            if tier == 'thorough' or rnd.random() < max(fraction, 0.5):
+            if tier == 'thorough':
+                entries = rnd.sample(cat, 2)
+            elif rnd.random() < max(fraction, 0.5):
                 entries = [rnd.choice(cat)]
             else:
                 entries = []
